@@ -422,6 +422,9 @@ func VerifRunJobs(sc JobsScenario, prefix []int) (*vshim.Sched, *JobsResult) {
 						if n > sc.Limit {
 							viol("%d jobs are submitted and unfinished at once, the limit is %d", n, sc.Limit)
 						}
+						// submitted, pending in the cluster's queue: still "queued"
+						// (only _jobinfo exists) until the cluster starts it
+						vshim.Yield()
 						verifSetState(mds[o.J], LogFile) // running
 						vshim.Yield()
 						verifSetState(mds[o.J], CompleteFile)
